@@ -507,3 +507,181 @@ func genMitmScenarios() []mitmScenario {
 func coqMitm(m mitmResult) string {
 	return fmt.Sprintf("{| m_upstream_after := (%d)%%Z; m_got_response := %s; m_eof := %s |}", m.UpstreamAfter, coqBool(m.GotResponse), coqBool(m.EOF))
 }
+
+// ---------------------------------------------------------------- the open-connection gauge
+
+type gaugeScenario struct {
+	Name  string `json:"name"`
+	Stack string `json:"stack"` // plain | tls | pp | pp+tls
+}
+
+type gaugeResult struct {
+	Sc         gaugeScenario `json:"scenario"`
+	Served     bool          `json:"served"`
+	Before     int64         `json:"gauge_before"`
+	OpenBefore int64         `json:"open_before"`
+	After      int64         `json:"gauge_after"`
+	Err        string        `json:"err,omitempty"`
+}
+
+func gaugeValue(reg *prometheus.Registry, suffix string) int64 {
+	mfs, err := reg.Gather()
+	if err != nil {
+		return -1000
+	}
+	var sum float64
+	for _, mf := range mfs {
+		if strings.HasSuffix(mf.GetName(), suffix) {
+			for _, m := range mf.GetMetric() {
+				if g := m.GetGauge(); g != nil {
+					sum += g.GetValue()
+				}
+			}
+		}
+	}
+	return int64(sum)
+}
+
+// runGauge: forwarder's own listener (metrics, conntrack, PROXY protocol, TLS).  Clients that the proxy
+// gets rid of in different ways - PROXY header timeout (the socket is closed underneath the tracked
+// connection), client gone, served with Connection: close - and one that stays idle until the forced
+// close.  The gauge listener_cx_active must equal the connections still open, and be 0 after Run.
+func runGauge(sc gaugeScenario) (res gaugeResult) {
+	res.Sc = sc
+	pp, tl := strings.Contains(sc.Stack, "pp"), strings.Contains(sc.Stack, "tls")
+	ol, err := net.Listen("tcp", "127.0.0.1:0")
+	if err != nil {
+		res.Err = err.Error()
+		return
+	}
+	osrv := &http.Server{Handler: http.HandlerFunc(func(w http.ResponseWriter, r *http.Request) {
+		w.Header().Set("Content-Length", "2")
+		io.WriteString(w, "ok") //nolint:errcheck
+	})}
+	go osrv.Serve(ol) //nolint:errcheck
+	defer osrv.Close()
+	oaddr := ol.Addr().String()
+
+	reg := prometheus.NewRegistry()
+	cfg := forwarder.DefaultHTTPProxyConfig()
+	cfg.Address = "127.0.0.1:0"
+	cfg.ProxyLocalhost = forwarder.AllowProxyLocalhost
+	cfg.PromRegistry = reg
+	cfg.ShutdownTimeout = 300 * time.Millisecond
+	cfg.ShutdownSignals = nil
+	if pp {
+		cfg.ProxyProtocolConfig = &forwarder.ProxyProtocolConfig{ReadHeaderTimeout: 200 * time.Millisecond}
+	}
+	if tl {
+		cfg.Protocol = forwarder.HTTPSScheme
+	}
+	hp, err := forwarder.NewHTTPProxy(cfg, nil, nil, &http.Transport{}, log.NopLogger, nil)
+	if err != nil {
+		res.Err = "new proxy: " + err.Error()
+		return
+	}
+	addrs, _ := hp.Addr()
+	ctx, cancel := context.WithCancel(context.Background())
+	defer cancel()
+	done := make(chan error, 1)
+	go func() { done <- hp.Run(ctx) }()
+	dial := func() net.Conn {
+		c, err := net.DialTimeout("tcp", addrs[0], time.Second)
+		if err != nil {
+			return nil
+		}
+		return c
+	}
+	closedByProxy := func(c net.Conn, d time.Duration) bool {
+		c.SetReadDeadline(time.Now().Add(d))
+		buf := make([]byte, 256)
+		for {
+			_, err := c.Read(buf)
+			if err != nil {
+				var ne net.Error
+				return !(errors.As(err, &ne) && ne.Timeout())
+			}
+		}
+	}
+	var open int64
+	// 1. two peers that never send anything, 2. one that sends part of a PROXY header
+	var silent []net.Conn
+	for i := 0; i < 3; i++ {
+		c := dial()
+		if c == nil {
+			res.Err = "dial failed"
+			return
+		}
+		defer c.Close()
+		if i == 2 && pp {
+			c.Write([]byte("PROXY TCP4 ")) //nolint:errcheck
+		}
+		silent = append(silent, c)
+	}
+	// 3. a client that goes away at once
+	if c := dial(); c != nil {
+		time.Sleep(20 * time.Millisecond)
+		c.Close()
+	}
+	// 4. a well-behaved client, served, Connection: close
+	if c := dial(); c != nil {
+		var cur net.Conn = c
+		if pp {
+			c.Write([]byte("PROXY TCP4 127.0.0.1 127.0.0.1 40000 3128\r\n")) //nolint:errcheck
+		}
+		if tl {
+			tc := tls.Client(c, &tls.Config{InsecureSkipVerify: true}) //nolint:gosec
+			tc.SetDeadline(time.Now().Add(2 * time.Second))
+			if err := tc.Handshake(); err == nil {
+				cur = tc
+			}
+		}
+		fmt.Fprintf(cur, "GET http://%s/ HTTP/1.1\r\nHost: %s\r\nConnection: close\r\n\r\n", oaddr, oaddr)
+		cur.SetReadDeadline(time.Now().Add(2 * time.Second))
+		if resp, err := http.ReadResponse(bufio.NewReader(cur), nil); err == nil {
+			b, _ := io.ReadAll(resp.Body)
+			resp.Body.Close()
+			res.Served = resp.StatusCode == 200 && string(b) == "ok"
+		}
+		c.Close()
+	}
+	// with a PROXY listener the silent peers are cut by the header timeout; otherwise they stay (idle)
+	for _, c := range silent {
+		if !closedByProxy(c, 600*time.Millisecond) {
+			open++
+		}
+	}
+	res.OpenBefore = open
+	deadline := time.Now().Add(500 * time.Millisecond)
+	for {
+		res.Before = gaugeValue(reg, "listener_cx_active")
+		if res.Before == open || time.Now().After(deadline) {
+			break
+		}
+		time.Sleep(5 * time.Millisecond)
+	}
+	cancel()
+	select {
+	case <-done:
+	case <-time.After(3 * time.Second):
+		res.Err = "Run did not return"
+	}
+	deadline = time.Now().Add(500 * time.Millisecond)
+	for {
+		res.After = gaugeValue(reg, "listener_cx_active")
+		if res.After == 0 || time.Now().After(deadline) {
+			break
+		}
+		time.Sleep(5 * time.Millisecond)
+	}
+	return res
+}
+
+func genGaugeScenarios() []gaugeScenario {
+	return []gaugeScenario{{"gauge/pp", "pp"}, {"gauge/pp+tls", "pp+tls"}, {"gauge/plain", "plain"}, {"gauge/tls", "tls"}}
+}
+
+func coqGauge(g gaugeResult) string {
+	return fmt.Sprintf("{| g_served := %s; g_before := (%d)%%Z; g_open_before := (%d)%%Z; g_after := (%d)%%Z |}",
+		coqBool(g.Served), g.Before, g.OpenBefore, g.After)
+}
